@@ -141,7 +141,17 @@ deriving DecidableEq, Repr
 structure RelayCtl where
   protocolId : Bytes      -- conf.GetProtocolId()
   srcPeerID : Bytes
+  /-- `targetPeerID`: the parsed `target_peer_id` — whom the relayed stream is opened with.
+  Never read by the filter. -/
+  targetPeerID : Bytes
+  /-- `targetProtocolID`: `target_protocol_id`, or the listen protocol when that is unset — the
+  protocol the relayed stream is opened with. Never read by the filter. -/
+  targetProtocolID : Bytes
 deriving DecidableEq, Repr
+
+/-- The protocol a relay forwards with: `target_protocol_id`; unset means "the same protocol". -/
+def RelayConfig.targetProto (c : RelayConfig) : Bytes :=
+  if c.targetProtocolId.isEmpty then c.protocolId else c.targetProtocolId
 
 def RelayConfig.validate (c : RelayConfig) : Bool :=
   (parsePeerID c.peerId).isSome && protoValid c.protocolId && !c.targetPeerId.isEmpty &&
@@ -159,10 +169,27 @@ def relayNew (c : RelayConfig) : Option RelayCtl :=
       if tpid.isEmpty then none
       else if !protoValid c.protocolId then none
       else if !c.targetProtocolId.isEmpty && !protoValid c.targetProtocolId then none
-      else some { protocolId := c.protocolId, srcPeerID := spid }
+      else some { protocolId := c.protocolId, srcPeerID := spid, targetPeerID := tpid,
+                  targetProtocolID := c.targetProto }
 
 def RelayCtl.handles (c : RelayCtl) (s : Stream) : Bool :=
   if c.protocolId != s.proto || c.srcPeerID != s.localPeer then false else true
+
+/-- What the relay's `MountedStreamHandler` does with a stream it was handed, the stream having
+arrived on a link whose local peer is `linkLocal` from the remote peer `remote`:
+`backLink` = the (source, target) of the `EstablishLinkWithPeer` directive that keeps the incoming
+link up; `openProto` / `openLocal` / `openPeer` = the arguments of
+`link.OpenStreamWithPeerEx(ctx, bus, targetProtocolID, localPeerID, targetPeerID, 0, opts)`. -/
+structure RelayOpen where
+  backLink : Bytes × Bytes
+  openProto : Bytes
+  openLocal : Bytes
+  openPeer : Bytes
+deriving DecidableEq, Repr
+
+def RelayCtl.opens (c : RelayCtl) (linkLocal remote : Bytes) : RelayOpen :=
+  { backLink := (linkLocal, remote), openProto := c.targetProtocolID, openLocal := linkLocal,
+    openPeer := c.targetPeerID }
 
 /-! ### stream/api/accept -/
 
@@ -170,6 +197,10 @@ structure AcceptConfig where
   localPeerId : Bytes
   remotePeerIds : List Bytes
   protocolId : Bytes
+  /-- `transport_id`: documented as "constrains the transport ID"; a `HandleMountedStream`
+  directive carries no transport, and neither `Validate`, the constructor nor the filter read
+  the field: it means nothing for which streams are taken. -/
+  transportId : Nat
 deriving DecidableEq, Repr
 
 structure AcceptCtl where
@@ -216,13 +247,23 @@ def AcceptCtl.handles (c : AcceptCtl) (s : Stream) : Bool :=
 structure SrpcConfig where
   peerIds : List Bytes
   protocolIds : List Bytes
+  /-- `disable_establish_link`: whether `HandleMountedStream` skips the `EstablishLinkWithPeer`
+  directive that keeps the incoming link up while the RPC stream lives. Not read by the filter. -/
+  disableEstablishLink : Bool
 deriving DecidableEq, Repr
 
 /-- `Server`: `protocolIDs` and `peerIDs` (base58 *text* of the served local peers). -/
 structure SrpcServer where
   protocolIDs : List Bytes
   peerIDs : List Bytes
+  /-- copied from the config / constructor argument; not read by the filter -/
+  disableEstablishLink : Bool
 deriving DecidableEq, Repr
+
+/-- `Config.ApplyDefaults(protocolIds)`: a config without protocol IDs gets the caller's defaults
+(`signaling/rpc/server` passes its own protocol ID); a config with protocol IDs keeps exactly its own. -/
+def SrpcConfig.applyDefaults (c : SrpcConfig) (defaults : List Bytes) : SrpcConfig :=
+  if c.protocolIds.length == 0 then { c with protocolIds := c.protocolIds ++ defaults } else c
 
 def SrpcConfig.validate (c : SrpcConfig) : Bool :=
   (parsePeerIDs false c.peerIds).isSome && (parseProtocolIDs false c.protocolIds).isSome
@@ -234,7 +275,8 @@ def srpcBuild (c : SrpcConfig) : Option SrpcServer :=
   | some ps =>
     match parsePeerIDs false c.peerIds with
     | none => none
-    | some ids => some { protocolIDs := ps, peerIDs := ids.map B58.encode }
+    | some ids => some { protocolIDs := ps, peerIDs := ids.map B58.encode,
+                         disableEstablishLink := c.disableEstablishLink }
 
 /-- `Server.ResolveHandleMountedStream`. -/
 def SrpcServer.handles (c : SrpcServer) (s : Stream) : Bool :=
@@ -242,17 +284,40 @@ def SrpcServer.handles (c : SrpcServer) (s : Stream) : Bool :=
   else if !c.peerIDs.isEmpty then c.peerIDs.contains (B58.encode s.localPeer)
   else true
 
+/-- `Server.HandleMountedStream`: the (source, target) of the `EstablishLinkWithPeer` directive it
+adds for a stream that arrived on a link with local peer `linkLocal` from `remote` (`none`: it adds none). -/
+def SrpcServer.backLink (c : SrpcServer) (linkLocal remote : Bytes) : Option (Bytes × Bytes) :=
+  if !c.disableEstablishLink then some (linkLocal, remote) else none
+
 /-! ### pubsub/controller and link/solicit/controller -/
 
 /-- `pubsub_controller.Controller.handleMountedStream`; `protocolID` is a constructor argument. -/
 def pubsubHandles (protocolID : Bytes) (s : Stream) : Bool :=
   if s.proto != protocolID then false else true
 
+/-- The constructor arguments of `pubsub_controller.NewController` that are data: `peerID` names
+the peer whose private key signs published messages (empty = none is looked up); it is not a
+filter — the controller takes streams of its protocol for every local peer. -/
+structure PubsubArgs where
+  peerID : Bytes
+  protocolID : Bytes
+deriving DecidableEq, Repr
+
+def PubsubArgs.handles (a : PubsubArgs) (s : Stream) : Bool := pubsubHandles a.protocolID s
+
 /-- `link_solicit_controller.Controller.handleMountedStream`. -/
 def solicitHandles (s : Stream) : Bool :=
   if s.proto == solicitControlProtocolID then true
   else if solicitStreamPrefix.isPrefixOf s.proto then true
   else false
+
+/-- `link_solicit_controller.Config`: `max_hashes` bounds the hash list of one exchange
+(0 = the default); it is not read by the filter. -/
+structure SolicitConfig where
+  maxHashes : Nat
+deriving DecidableEq, Repr
+
+def SolicitConfig.handles (_ : SolicitConfig) (s : Stream) : Bool := solicitHandles s
 
 /-! ## C35: RPC / HTTP lookups -/
 
